@@ -17,7 +17,7 @@ LEVEL = "exploration"
 RULE = (
     "every structure of the input list (corpus structures re-emitted from their abstract atom tables; lattice structures with at least one "
     "interaction) x every single transformation (d=1) and every pair of transformations from different groups (d=2) of the finite family: rigid "
-    "{23 cube rotations, [60 icosahedral], 9 translations up to +-500 A}, atom order inside residues {reversed, rotated by 1, sorted by name, sorted "
+    "{23 cube rotations, 3 (quick) / 59 (thorough) icosahedral rotations, 9 translations up to +-500 A}, atom order inside residues {reversed, rotated by 1, sorted by name, sorted "
     "descending}, order-preserving relabelings {monotone chain map, numbers +1000, numbers starting at -300, residues sharing a number and told apart by insertion codes (pairs / triples), label ids != auth ids}, format {PDB instead "
     "of mmCIF}; rigid+format pairs use decimal-exact motions (axis permutations with sign flips, decimal translations) applied to the coordinate "
     "strings. The full annotation (base pairs with classes and Saenger, stackings, BPh, BR), BPSEQ, dot-bracket and extended dot-bracket of the "
@@ -44,9 +44,8 @@ def transformations(tier):
     T = []
     for k in range(1, 24):
         T.append(("rigid", "cube", k))
-    if tier != "quick":
-        for k in range(1, 60):
-            T.append(("rigid", "ico", k))
+    for k in (range(1, 60) if tier != "quick" else (7, 23, 41)):  # irrational entries: exercise rounding
+        T.append(("rigid", "ico", k))
     for k in range(len(TRANSLATIONS)):
         T.append(("rigid", "translate", k))
     for k in ("reversed", "rotated", "sorted", "sorted-desc"):
